@@ -15,4 +15,7 @@ VARIANTS = [
     V('returns-untransposed', P, ("inverse_jacobian = inverse_jacobian_transpose.T", "inverse_jacobian = inverse_jacobian_transpose"), 'fire', 'SP.inverseJacobian'),
     # benign
     V('benign-rename-leg', P, [("ni = fmr.Normalize(self._top_joints_space[:, i]-self._bottom_joints_space[:, i])\n             #Reverse for upward forces?\n            qi = self._bottom_joints_space[:, i]\n            col = np.hstack((np.cross(qi, ni), ni))\n            inverse_jacobian_transpose[:, i] = col", "ni = fmr.Normalize(self._top_joints_space[:, i]-self._bottom_joints_space[:, i])\n            qi = self._bottom_joints_space[:, i]\n            col = np.hstack((np.cross(qi, ni), ni))\n            inverse_jacobian_transpose[:, i] = col")], 'silent'),
+    V('shaft-cog-clamped-to-leg-length', P, ("return fsr.getUnitVec(top_act_joint,\n                bottom_act_joint, self._act_shaft_grav_center)", "return fsr.getUnitVec(top_act_joint,\n                bottom_act_joint, min(self._act_shaft_grav_center, fsr.distance(bottom_act_joint, top_act_joint)))"), 'fire', 'R11.5'),
+    V('shaft-cog-measured-from-the-bottom-joint', P, ("return fsr.getUnitVec(top_act_joint,\n                bottom_act_joint, self._act_shaft_grav_center)", "return fsr.getUnitVec(bottom_act_joint,\n                top_act_joint, self._act_shaft_grav_center)"), 'fire', 'R11.5'),
+    V('benign-shaft-cog-offset-named', P, ("return fsr.getUnitVec(top_act_joint,\n                bottom_act_joint, self._act_shaft_grav_center)", "offset = self._act_shaft_grav_center\n            start, towards = top_act_joint, bottom_act_joint\n            return fsr.getUnitVec(start, towards, offset)"), 'silent'),
 ]
